@@ -112,6 +112,25 @@ theorem writePassAux_spec : ∀ (ss : List FcStream) (cswin : Int) (budget : Nat
       · subst hx; exact streamTurn_SInv (hall s (by simp))
       · exact h5 (fun y hy => hall y (by simp [hy])) x hx
 
+theorem mem_insertPrio {s y : FcStream} : ∀ {l : List FcStream}, y ∈ insertPrio s l ↔ y = s ∨ y ∈ l := by
+  intro l
+  induction l with
+  | nil => simp [insertPrio]
+  | cons x xs ih =>
+    simp only [insertPrio]
+    split
+    · simp
+    · simp only [List.mem_cons, ih]
+      constructor
+      · rintro (h | h | h)
+        · right; left; exact h
+        · left; exact h
+        · right; right; exact h
+      · rintro (h | h | h)
+        · right; left; exact h
+        · left; exact h
+        · right; right; exact h
+
 theorem CInv.init_holds (h : Extracted.h2ConnSendWindow = rfcInitialWindow ∧
                              Extracted.h2PeerInitialWindow = rfcInitialWindow) : CInv FcConn.init := by
   refine ⟨?_, ?_, ?_⟩
@@ -123,10 +142,10 @@ theorem CInv.openStream {c : FcConn} (inv : CInv c) (id body : Nat) (inc : Bool)
     CInv (openStream c id body inc) := by
   refine ⟨inv.conn, inv.init, ?_⟩
   intro s hs
-  simp only [LtVerif.openStream, List.mem_append, List.mem_singleton] at hs
+  simp only [LtVerif.openStream, mem_insertPrio] at hs
   rcases hs with hs | hs
-  · exact inv.streams s hs
   · subst hs; simp [SInv, inv.init]
+  · exact inv.streams s hs
 
 theorem CInv.applyInitialWindow {c : FcConn} (inv : CInv c) (v : Nat) :
     CInv (applyInitialWindow c v).1 := by
@@ -540,14 +559,14 @@ theorem RInv.openStream {c : FcConn} (inv : RInv c) (id body : Nat) (inc : Bool)
     RInv (openStream c id body inc) := by
   refine ⟨inv.init, inv.conn, ?_⟩
   intro s hs
-  simp only [LtVerif.openStream, List.mem_append, List.mem_singleton] at hs
+  simp only [LtVerif.openStream, mem_insertPrio] at hs
   rcases hs with hs | hs
-  · exact inv.streams s hs
   · subst hs
     have := inv.init
     unfold SRange int32Max at *
     simp only [LtVerif.openStream]
     omega
+  · exact inv.streams s hs
 
 theorem RInv.writePass {c : FcConn} (inv : RInv c) (budget : Nat) : RInv (writePass c budget).1 := by
   unfold LtVerif.writePass
